@@ -368,7 +368,7 @@ impl World {
 
     pub fn attribute(&self, method: &str, params: &Value) -> Option<usize> {
         match method {
-            "datastore" | "listdatastore" => {
+            "datastore" | "listdatastore" | "deldatastore" => {
                 let k = params.get("key")?.as_array()?;
                 for s in k {
                     if let Some(s) = s.as_str() {
